@@ -168,8 +168,13 @@ Proof.
         -- intros tau Ha Hp He. apply (IH tau Ha Hp).
            rewrite (Hsplit tau Ha) in He. cbn [map] in He. rewrite nsum_cons in He. change (nsum []) with 0 in He. lia.
       * cbn [sound_res]. intros tau Ha Hp He. rewrite (Hsplit tau Ha) in He. lia.
-    + destruct (N.leb_spec k v) as [Hkv|Hkv]; [exact I|].
-      cbn [sound_res]. intros tau Ha Hp He. rewrite (Hsplit tau Ha) in He. lia.
+    + destruct (N.leb_spec (k + N.of_nat (List.length (u :: u2 :: rest))) v) as [Hkv|Hkv]; [exact I|].
+      cbn [sound_res]. intros tau Ha Hp He. rewrite (Hsplit tau Ha) in He.
+      assert (Hge : N.of_nat (List.length (u :: u2 :: rest)) <= nsum (map (eval tau) (u :: u2 :: rest))).
+      { pose proof (filter_sub_wf l (fun x => negb (is_known s x)) Hw) as Hwu. fold un in Hwu. rewrite Eun in Hwu.
+        rewrite wfl_Forall in Hwu. clear - Hwu Hp. induction Hwu as [|x r Hx _ IHr]; [cbn; lia|].
+        cbn [map List.length]. rewrite nsum_cons, Nat2N.inj_succ. pose proof (eval_pos tau x Hp Hx). lia. }
+      lia.
 Qed.
 
 (* ---- the propagation loop ---- *)
